@@ -42,6 +42,12 @@ ACTIONS = [
     "Reflecteds", "Exp", "Log", "SqrtFD", "Sin", "PowHs", "PowUs", "RevPows", "TNeg", "TSquare",
     "TExpLog", "TLogExp", "TOpConsts", "TOpRights", "TOpLefts",
 ]
+# Which behaviour spec/ErrProp.tla transcribes.  As found (both False) the operator rules return negative
+# sigmas (AbsFix) and take the wrong logarithm (LogFix); the invariants NonNegative / TransLaw then are probes
+# that must fail.  After the corresponding repair of tf_pwa/err_num.py set the flag to True: the spec's Rule
+# follows the repaired code and the probe becomes an ordinary invariant of the main run.
+SPEC_ABS_FIX = False
+SPEC_LOG_FIX = False
 MAIN_INVARIANTS = ["Magnitude", "ValueAgrees", "NegCharacterised", "CalNonNeg", "TransCharacterised", "BoundCongruence"]
 
 # tolerances (measured margins on the unchanged tree are recorded in the evidence)
@@ -57,8 +63,8 @@ def _cfg(ctx, name, quick, invariants, post=True):
     with open(p, "w") as f:
         f.write(
             "CONSTANTS\n ULeaves <- ULeaves%s\n Consts <- Consts%s\n PowN <- PowN%s\n Depth = %d\n"
-            " ULeaves3 <- ULeaves3T\n Consts3 <- Consts3T\n PowN3 <- PowN3T\n ValCap = 12\n"
-            "INIT Init\nNEXT Next\n" % (a, a, a, 2 if quick else 3)
+            " ULeaves3 <- ULeaves3T\n Consts3 <- Consts3T\n PowN3 <- PowN3T\n ValCap = 12\n AbsFix = %s\n LogFix = %s\n"
+            "INIT Init\nNEXT Next\n" % (a, a, a, 2 if quick else 3, "TRUE" if SPEC_ABS_FIX else "FALSE", "TRUE" if SPEC_LOG_FIX else "FALSE")
         )
         for inv in invariants:
             f.write("INVARIANT %s\n" % inv)
@@ -187,7 +193,8 @@ def _report(ctx, t, mkB, variant="", fd=False):
 # ---------------------------------------------------------------------------
 def _tlc_part(ctx, quick):
     # TLC's -coverage costs more than the whole search here (x3): thorough tier only
-    r = tlc.run("ErrProp", _cfg(ctx, "main", quick, MAIN_INVARIANTS), work=ctx.work, workers=16, timeout=2400, coverage=not quick)
+    invs = MAIN_INVARIANTS + (["NonNegative"] if SPEC_ABS_FIX else []) + (["TransLaw"] if SPEC_ABS_FIX and SPEC_LOG_FIX else [])
+    r = tlc.run("ErrProp", _cfg(ctx, "main", quick, invs), work=ctx.work, workers=16, timeout=2400, coverage=not quick)
     if r.violation:
         tr = r.trace[-1][-1].get("tree") if r.trace else None
         raise tlc.MachineryError(
@@ -243,7 +250,8 @@ def _probes(ctx, quick, NumberError, cal_err):
     """the two invariants that are expected to fail on the rules as transcribed:
     a TLC counterexample is a design-level finding; reproduce it on the real code"""
     res = {}
-    for inv in ("NonNegative", "TransLaw"):
+    todo = ([] if SPEC_ABS_FIX else ["NonNegative"]) + ([] if SPEC_ABS_FIX and SPEC_LOG_FIX else ["TransLaw"])
+    for inv in todo:
         r = tlc.run(
             "ErrProp", _cfg(ctx, "probe_" + inv, quick, [inv], post=False), work=ctx.work, workers=4, timeout=1200,
             expect_violation=True, coverage=False,
